@@ -612,6 +612,134 @@ def r14_5(rep: Report, mc: ast.FunctionDef, c2: str) -> None:
             rep.fail('R14.5', c2, key, msg, mc)
 
 
+_SHADOW_EXAMPLE = '''
+def pick(rows, wanted):
+    kind = 0
+    found = None
+    for kind, found in rows:
+        if found == wanted:
+            break
+    return (kind, found)
+'''
+
+
+def loop_target_overwrites_default(fn: ast.AST) -> list[tuple[ast.For, str]]:
+    """(loop, name) where a name is given a default, is then the target of a `for` in the same block that has
+    no `else`, and is read after the loop: once the loop has run the default is gone, and when no iteration
+    breaks out the name holds the LAST element, not the default ("not found" is reported as the last row)"""
+    out = []
+    for n in ast.walk(fn):
+        for f_ in ('body', 'orelse', 'finalbody'):
+            blk = getattr(n, f_, None)
+            if not (isinstance(blk, list) and blk and isinstance(blk[0], ast.stmt)):
+                continue
+            for i, st in enumerate(blk):
+                if not isinstance(st, ast.For) or st.orelse:
+                    continue
+                tg = {x.id for x in ast.walk(st.target) if isinstance(x, ast.Name)}
+                pre = {t.id for b in blk[:i] if isinstance(b, (ast.Assign, ast.AnnAssign))
+                       for t in (b.targets if isinstance(b, ast.Assign) else [b.target]) if isinstance(t, ast.Name)}
+                post = {x.id for b in blk[i + 1:] for x in ast.walk(b) if isinstance(x, ast.Name) and isinstance(x.ctx, ast.Load)}
+                # a name the loop body reassigns before it is left is the body's business, not the target's
+                for name in sorted(tg & pre & post):
+                    out.append((st, name))
+    return out
+
+
+def r14_11(rep: Report) -> None:
+    """R14.11  the splice command type a signal is written with comes from a search over the commands; "none
+    present" must stay splice_null.  Zero occurrences are expected; the embedded example keeps the rule honest."""
+    rid = 'R14.11'
+    if not loop_target_overwrites_default(ast.parse(_SHADOW_EXAMPLE)):
+        raise AnalysisError('R14.11: the embedded example of a loop target that overwrites a default is not recognised')
+    n = 0
+    for sub in ('dashlive/scte35', EV):
+        for rel in rep.repo.py_files(sub) + ([] if sub != 'dashlive/scte35' else ['dashlive/mpeg/section_table.py']):
+            tree = rep.repo.tree(rel)
+            for fn in [x for x in ast.walk(tree) if isinstance(x, (ast.FunctionDef, ast.AsyncFunctionDef))]:
+                n += 1
+                for loop, name in loop_target_overwrites_default(fn):
+                    rep.fail(rid, f'{rel}::{fn.name}', f'for .. {name} ..',
+                             f'`{name}` is given a default, then used as the target of `for {norm(loop.target)} in {norm(loop.iter)[:40]}` '
+                             f'and read after the loop: when no iteration breaks out it holds the last element, not the default - '
+                             'a signal without a command is written with the type of the last table row instead of splice_null, '
+                             'and the parser reads a command that is not there', loop)
+    rep.ok(rid, 'dashlive/scte35 + events', 'functions searched', f'{n} functions, example recognised')
+
+
+def r14_12(rep: Report, idx: Index, rels: list[str]) -> None:
+    """R14.12  SCTE-35 sections are byte oriented (section_length and the command / descriptor lengths count bytes,
+    the CRC-32 covers whole bytes) while their fields are bit packed.  Wherever the writer of a structure chooses
+    between two arms, both arms must have the same length modulo 8 bits - otherwise one of the two leaves
+    everything after it misaligned (the specification pads the short arm with reserved bits).  Decided on the
+    layout trees of the encoders (E4): constant field widths are summed, nested structures and counted loops whose
+    body is a whole number of bytes count as 0."""
+    from ..layout import Call as LCall, If as LIf, Loop as LLoop, Ret as LRet
+    rid = 'R14.12'
+    ex = Extractor(idx)
+    n = 0
+
+    def bits_mod8(items: list) -> int | None:
+        """length of a sequence modulo 8, None when it holds a width that is not a constant"""
+        total = 0
+        for it in items:
+            if isinstance(it, Item):
+                if not isinstance(it.bits, int):
+                    return None
+                total += it.bits
+            elif isinstance(it, LIf):
+                a, b = bits_mod8(it.then), bits_mod8(it.orelse)
+                if a is None or b is None:
+                    return None
+                if a != b:
+                    return None          # reported where the If itself is visited
+                total += a
+            elif isinstance(it, LLoop):
+                b = bits_mod8(it.body)
+                if b is None or b != 0:
+                    return None
+            elif isinstance(it, (LCall, LRet)):
+                continue
+        return total % 8
+
+    def visit(items: list, construct: str) -> None:
+        nonlocal n
+        for it in items:
+            if isinstance(it, LIf):
+                visit(it.then, construct)
+                visit(it.orelse, construct)
+                a, b = bits_mod8(it.then), bits_mod8(it.orelse)
+                n += 1
+                key = f'if {it.cond[:50]}'
+                if a is None or b is None:
+                    rep.ok(rid, construct, key, 'an arm has a variable width: not decided')
+                elif a == b:
+                    rep.ok(rid, construct, key, f'both arms are {a} bit(s) past a byte boundary')
+                else:
+                    rep.fail(rid, construct, key,
+                             f'the arm under `{it.cond[:60]}` is {a} bit(s) past a byte boundary, the other arm {b}: one of the two '
+                             'leaves the rest of the byte-oriented section misaligned - the structure cannot be encoded '
+                             '("not a multiple of 8 bits") or is parsed out of step. SCTE-35 pads the short arm with reserved '
+                             'bits (splice_time(): 7 reserved bits when time_specified_flag is 0)',
+                             types.SimpleNamespace(lineno=it.line))
+            elif isinstance(it, LLoop):
+                visit(it.body, construct)
+    import types
+    classes = [c for rel in rels if rel.startswith('dashlive/scte35/') for c in idx.by_rel[rel].classes.values()]
+    ex.infer_bits_mode(classes)
+    for c in classes:
+        _p, e = ex.pair(c)
+        if e is None:
+            continue
+        try:
+            tree = canon(ex.extract(e, 'encode', c))
+        except Exception:
+            continue            # (classes the extractor cannot model are reported by R14.1)
+        visit(tree, f'{c.rel}::{c.name}.{e.name}' if hasattr(c, 'rel') else f'{c.name}.{e.name}')
+    if n < 3:
+        raise AnalysisError(f'R14.12: only {n} alternative(s) found in the SCTE-35 encoders')
+
+
 def r14_10(rep: Report, idx: Index) -> None:
     """R14.10  optional numeric fields announced by a flag: where the reader sets a field to None when its flag is
     clear and reads an integer otherwise, 0 is a value and None is absence.  On the writer side every test
@@ -1092,9 +1220,12 @@ def analyse(rep: Report) -> None:
     rep.rule('R14.6', 'segment window end: duration of the served fragment, converted as one quantity', floor=2)
     rep.rule('R14.9', 'early exits of the in-band scheduler imply an empty segment window', floor=3)
     rep.rule('R14.10', 'optional numeric SCTE-35 fields are present unless None (0 is a value)', floor=1)
+    rep.rule('R14.12', 'the arms of every alternative in an SCTE-35 structure have the same length modulo 8 bits', floor=3)
+    rep.rule('R14.11', 'a default is not overwritten by the target of the loop that searches for a replacement', floor=1)
     idx = Index(rep.repo, 'dashlive')
     rels = sorted(r for r in idx.by_rel if r.startswith(SCTE + '/')) + ['dashlive/mpeg/section_table.py']
     layout_rule(rep, idx, 'R14.1', rels, 12)
+    r14_12(rep, idx, rels)
     layout_rule(rep, idx, 'R14.1', ['dashlive/mpeg/mp4.py'], 1, only={'EventMessageBox'})
     r14_1_protocol(rep, idx)
     r14_2(rep, idx)
@@ -1105,3 +1236,4 @@ def analyse(rep: Report) -> None:
     r14_8(rep)
     r14_9(rep)
     r14_10(rep, idx)
+    r14_11(rep)
